@@ -365,6 +365,10 @@ class C17Engine(C10.C10Engine):
                         # (another reference of the database may be hit first and be refused as mixed)
                         self.expect_raises(cell, "owner-column.dbml", lambda: real[oc].dbml, (TNF, DBE), ctx)
                         self.expect_raises(cell, "owner-table.dbml", lambda: real[ot].dbml, (TNF, DBE), ctx)
+                        if m[r]["type"] in (">", "-"):
+                            # ... and in SQL the inline reference is a FOREIGN KEY line of the CREATE TABLE of
+                            # its source table (col1's table for '>' and '-')
+                            self.expect_raises(cell, "owner-table.sql", lambda: real[ot].sql, (TNF, DBE), ctx)
             finally:
                 if saved_attr:
                     setattr(real[c], saved_attr[0], saved_attr[1])
